@@ -146,9 +146,9 @@ Fixpoint xmapcat {A} (f : A -> X (list token)) (l : list A) : X (list token) :=
 
 Definition x_in_scope {A} (scope : ident) (f : X A) : X A :=
   s0 <= xget ;;
-  xmod (fun s => mkXS (xs_scope s0 ++ [scope]) (xs_macro s) (xs_defs s) (xs_fresh s)) ;;=
+  xmod (fun s => mkXS (xs_scope s0 ++ [scope]) 0%nat (xs_defs s) (xs_fresh s)) ;;=      (* invocations are numbered per scope (5239ce9) *)
   r <= f ;;
-  xmod (fun s => mkXS (xs_scope s0) (xs_macro s) (xs_defs s) (xs_fresh s)) ;;=
+  xmod (fun s => mkXS (xs_scope s0) (xs_macro s0) (xs_defs s) (xs_fresh s)) ;;=
   xret r.
 
 Section Expand.
@@ -419,7 +419,10 @@ Fixpoint print_token (fuel : nat) (t : token) : text :=
       | TInvoke id _ args => id ++ [40%N] ++ join [44; 32]%N (map (fun e => print_expr (le_expr e)) args) ++ [41; 10]%N
       | TPc v => [42; 32; 61; 32]%N ++ print_expr (le_expr v) ++ nl
       | TSegment id b =>
-          [46; 115; 101; 103; 109; 101; 110; 116; 32]%N ++ print_expr (le_expr id) ++ (match b with Some b => body b | None => nl end)
+          (* without a block: a `{ .. }` that follows (e.g. an expanded loop) would be parsed as the segment's block, so a
+             statement that emits nothing is printed in between: `.const zsep = 0` *)
+          [46; 115; 101; 103; 109; 101; 110; 116; 32]%N ++ print_expr (le_expr id)
+          ++ (match b with Some b => body b | None => nl ++ t_const ++ [122; 115; 101; 112]%N ++ t_eq ++ [48%N] ++ nl end)
       | TTest id b => [46; 116; 101; 115; 116; 32]%N ++ print_expr (le_expr id) ++ body b
       | TText _ tx => [46; 116; 101; 120; 116; 32]%N ++ print_expr (le_expr tx) ++ nl
       | TVarDef ty id _ v => (match ty with VConst => t_const | VVar => t_var end) ++ id ++ t_eq ++ print_expr (le_expr v) ++ nl
